@@ -165,6 +165,8 @@ func (r *Run) Prepare() {
 	}
 	r.BinDir, r.TreeHash = bin, th
 	r.WorkDir = filepath.Join(CacheRoot(), "work", fmt.Sprintf("%s-%s-%d", r.Property, r.Tier, os.Getpid()))
+	// work directories of runs that were killed or ended on a fatal path stay behind: drop those older than two hours
+	pruneDirs(filepath.Join(CacheRoot(), "work"), 4, r.WorkDir)
 	os.RemoveAll(r.WorkDir)
 	if err := os.MkdirAll(r.WorkDir, 0o755); err != nil {
 		r.Fatal("%v", err)
